@@ -2,6 +2,7 @@
 C06 — Editing functions produce exactly the document the edit denotes.
 -/
 import JsonbModel.Proofs.EditRefine
+import JsonbModel.Proofs.KeypathRefine
 
 namespace Jsonb.Props
 open Jsonb JV
@@ -30,6 +31,74 @@ theorem C06_concat_arrays (l r : List JV) (hl : l.length < 536870912) (hr : r.le
     Fn.concat (encodeSpec (arr l)) (encodeSpec (arr r)) buf
       = .ok (buf ++ encodeSpec (Spec.concat (arr l) (arr r))) :=
   concat_arr_arr l r hl hr hlr hgl hgr buf
+
+/-- concatenation in all five cases: objects merge with the right side winning, arrays append,
+anything else is wrapped into an array -/
+theorem C06_concat (l r : JV) (hl : goodTop l = true) (hr : goodTop r = true)
+    (hres : goodTop (Spec.concat l r) = true) (buf : Bytes) :
+    Fn.concat (encodeSpec l) (encodeSpec r) buf = .ok (buf ++ encodeSpec (Spec.concat l r)) :=
+  concat_refines l r hl hr hres buf
+
+/-- deletion by name (object member / equal string elements of an array); scalars give the
+documented error — and the model returns it before touching the buffer -/
+theorem C06_delete_by_name (v : JV) (hg : goodTop v = true) (name buf : Bytes) :
+    Fn.deleteByName (encodeSpec v) name buf
+      = match Spec.deleteByName v name with
+        | some r => .ok (buf ++ encodeSpec r)
+        | none => .err "InvalidJsonType" := deleteByName_refines v hg name buf
+
+/-- deletion by key path: into and past scalars, negative indices, missing members — any
+mismatch leaves the document unchanged; scalar root is the documented error -/
+theorem C06_delete_by_keypath (v : JV) (hg : goodTop v = true) (kp : List KeyPath) (hk : kpOK kp) (buf : Bytes) :
+    Fn.deleteByKeypath (encodeSpec v) kp buf
+      = match Spec.deleteByKeypath v kp with
+        | some r => .ok (buf ++ encodeSpec r)
+        | none => .err "InvalidJsonType" := deleteByKeypath_refines v hg kp hk buf
+
+/-- positional array insertion for every i32 position, with clamping; non-array targets count
+as a one-element list -/
+theorem C06_array_insert (v new : JV) (hg : goodTop v = true) (hnew : good new = true)
+    (pos : Int) (hp : -2147483648 ≤ pos ∧ pos ≤ 2147483647)
+    (hres : goodTop (Spec.arrayInsert v pos new) = true) (buf : Bytes) :
+    Fn.arrayInsert (encodeSpec v) pos (encodeSpec new) buf
+      = .ok (buf ++ encodeSpec (Spec.arrayInsert v pos new)) :=
+  arrayInsert_refines v new hg hnew pos hp hres buf
+
+/-- object insert / update with the two documented errors -/
+theorem C06_object_insert (v : JV) (hg : goodTop v = true) (key : Bytes) (new : JV) (update : Bool)
+    (hnew : good new = true) (hk : key.length < 268435456) (hu : validUtf8 key = true)
+    (hres : ∀ r, Spec.objectInsert v key new update = .ok r → goodTop r = true) (buf : Bytes) :
+    Fn.objectInsert (encodeSpec v) key (encodeSpec new) update buf
+      = match Spec.objectInsert v key new update with
+        | .ok r => .ok (buf ++ encodeSpec r)
+        | .error .duplicateKey => .err "ObjectDuplicateKey"
+        | .error .invalidObject => .err "InvalidObject" :=
+  objectInsert_refines v hg key new update hnew hk hu hres buf
+
+theorem C06_object_delete (v : JV) (hg : goodTop v = true) (keys : List Bytes) (buf : Bytes) :
+    Fn.objectFilter false (encodeSpec v) keys buf
+      = match Spec.objectDelete v keys with
+        | some r => .ok (buf ++ encodeSpec r)
+        | none => .err "InvalidObject" := objectDelete_refines v hg keys buf
+theorem C06_object_pick (v : JV) (hg : goodTop v = true) (keys : List Bytes) (buf : Bytes) :
+    Fn.objectFilter true (encodeSpec v) keys buf
+      = match Spec.objectPick v keys with
+        | some r => .ok (buf ++ encodeSpec r)
+        | none => .err "InvalidObject" := objectPick_refines v hg keys buf
+
+/-- recursive removal of null-valued object members, nulls at every depth -/
+theorem C06_strip_nulls (v : JV) (hg : goodTop v = true) (buf : Bytes) :
+    Fn.stripNulls (encodeSpec v) buf = .ok (buf ++ encodeSpec (Spec.stripNulls v)) :=
+  stripNulls_refines v hg buf
+
+/-- building an array / an object from parts (keys in any order, repeated keys: last wins) -/
+theorem C06_build_array (vs : List JV) (hn : vs.length < 536870912) (hg : goodL vs = true) (buf : Bytes) :
+    Fn.buildArray (vs.map encodeSpec) buf = .ok (buf ++ encodeSpec (Spec.buildArray vs)) :=
+  buildArray_refines vs hn hg buf
+theorem C06_build_object (kvs : List (Bytes × JV)) (hg : goodK kvs = true)
+    (hn : (mkObj kvs).length < 536870912) (buf : Bytes) :
+    Fn.buildObject (kvs.map docMember) buf = .ok (buf ++ encodeSpec (Spec.buildObject kvs)) :=
+  buildObject_refines kvs hg hn buf
 
 example : Fn.deleteByIndex (encodeSpec (arr [null, str [0x61], arr []])) (-2) [7]
     = .ok ([7] ++ encodeSpec (arr [null, arr []])) := by decide +kernel
